@@ -972,7 +972,8 @@ class OdeSystem(object):
         else:
             tf = self.tf
 
-        if D.ar_numpy.abs(tf - self.__t[self.counter]) < D.epsilon(self.__y[self.counter].dtype):
+        if D.ar_numpy.abs(tf - self.__t[self.counter]) < D.tol_epsilon(self.__y[self.counter].dtype):
+            # already there: the loop below regards a target closer than this as reached and would not take a step
             return
         steps = 0
 
